@@ -45,9 +45,12 @@ theorem nlf_cRead (n : Nat) : NoLeakF (cRead n) := nlf_of_reqs_eq (by
   intro k k' h; unfold cRead at h; split at h <;> try contradiction
   split at h <;> try contradiction
   simp only [Option.some.injEq] at h; subst h; rfl)
-theorem nlf_cReadErr (b f : Bool) : NoLeakF (cReadErr b f) := nlf_of_reqs_eq (by
+theorem nlf_cReadErr (p b f : Bool) : NoLeakF (cReadErr p b f) := nlf_of_reqs_eq (by
   intro k k' h; unfold cReadErr at h; split at h <;> try contradiction
   split at h <;> (simp only [Option.some.injEq] at h; subst h; rfl))
+theorem nlf_cDrainTick : NoLeakF cDrainTick := nlf_of_reqs_eq (by
+  intro k k' h; unfold cDrainTick at h; split at h <;> try contradiction
+  simp only [Option.some.injEq] at h; subst h; rfl)
 theorem nlf_cAge : NoLeakF cAge := nlf_of_reqs_eq (by
   intro k k' h; unfold cAge at h; simp only [Option.some.injEq] at h; subst h; rfl)
 theorem nlf_cDrainClose : NoLeakF cDrainClose := nlf_of_reqs_eq (by
@@ -163,7 +166,7 @@ theorem noleak_step {cfg : Cfg} (hd : cfg.decDeferred = true) {s s' : State} (a 
   | register c => exact noleak_updConn nlf_cRegister hn h
   | stamp c => exact noleak_updConn nlf_cStamp hn h
   | read c n => exact noleak_updConn (nlf_cRead n) hn h
-  | readErr c f => exact noleak_updConn (nlf_cReadErr _ f) hn h
+  | readErr c f => exact noleak_updConn (nlf_cReadErr _ _ f) hn h
   | age c => exact noleak_updConn nlf_cAge hn h
   | dispatch c => exact noleak_updConn (nlf_cDispatch _) hn h
   | enqueue c =>
@@ -221,6 +224,11 @@ theorem noleak_step {cfg : Cfg} (hd : cfg.decDeferred = true) {s s' : State} (a 
     simp only [step, hd] at h
     exact noleak_updConn (nlf_cSkip i) hn h
   | dec c i => exact noleak_updConn (nlf_cDec i) hn h
+  | drainTick c =>
+    simp only [step] at h
+    split at h <;> try contradiction
+    split at h <;> try contradiction
+    exact noleak_updConn nlf_cDrainTick hn h
   | drainClose c => exact noleak_updConn nlf_cDrainClose hn h
   | shutdownCall =>
     simp only [step] at h
@@ -338,9 +346,13 @@ theorem keepsL_cRead (i n : Nat) : KeepsL i (cRead n) := by
   split at h <;> try contradiction
   simp only [Option.some.injEq] at h; subst h; exact ⟨rfl, id, fun _ hq _ => hq⟩
 
-theorem keepsL_cReadErr (i : Nat) (b f : Bool) : KeepsL i (cReadErr b f) := by
+theorem keepsL_cReadErr (i : Nat) (p b f : Bool) : KeepsL i (cReadErr p b f) := by
   intro k k' h; unfold cReadErr at h; split at h <;> try contradiction
   split at h <;> (simp only [Option.some.injEq] at h; subst h; exact ⟨rfl, id, fun _ hq _ => hq⟩)
+
+theorem keepsL_cDrainTick (i : Nat) : KeepsL i cDrainTick := by
+  intro k k' h; unfold cDrainTick at h; split at h <;> try contradiction
+  simp only [Option.some.injEq] at h; subst h; exact ⟨rfl, id, fun _ hq _ => hq⟩
 
 theorem keepsL_cAge (i : Nat) : KeepsL i cAge := by
   intro k k' h; unfold cAge at h
@@ -493,9 +505,9 @@ theorem leaked_notifyAll {s : State} {c i : Nat} (hd : Leaked s c i) : Leaked (n
   obtain ⟨h1, h2, h3⟩ := cNotify_keeps k
   exact ⟨⟨cNotify k, q, notifyAll_get hck, by rw [h1]; exact hq, hqs, by rw [h2]; exact hcl, by rw [h3]; exact hreg⟩, hd.pass, hd.notRet⟩
 
-theorem leaked_ciBegin {s : State} {c i : Nat} (hd : Leaked s c i) :
+theorem leaked_ciBegin {s : State} {c i : Nat} {b : Bool} (hd : Leaked s c i) :
     Leaked { s with pass := some { todo := registeredIds s, all := true, holding := none },
-                     lastPass := registeredIds s } c i := by
+                     lastPass := registeredIds s, firstPoll := true, fpNotified := b } c i := by
   obtain ⟨k, q, hck, hq, hqs, hcl, hreg⟩ := hd.there
   refine ⟨hd.there, ?_, hd.notRet⟩
   intro p hp
@@ -529,7 +541,7 @@ theorem leaked_step {cfg : Cfg} {s s' : State} {c i : Nat}
   | register c' => exact leaked_updConn (keepsL_cRegister i) hd h
   | stamp c' => exact leaked_updConn (keepsL_cStamp i) hd h
   | read c' m => exact leaked_updConn (keepsL_cRead i m) hd h
-  | readErr c' f => exact leaked_updConn (keepsL_cReadErr i _ f) hd h
+  | readErr c' f => exact leaked_updConn (keepsL_cReadErr i _ _ f) hd h
   | age c' => exact leaked_updConn (keepsL_cAge i) hd h
   | dispatch c' => exact leaked_updConn (keepsL_cDispatch i _) hd h
   | enqueue c' =>
@@ -582,6 +594,11 @@ theorem leaked_step {cfg : Cfg} {s s' : State} {c i : Nat}
   | write c' j => exact leaked_updConn (keepsL_cWrite i j) hd h
   | skip c' j => exact leaked_updConn (keepsL_cSkip i _ j) hd h
   | dec c' j => exact leaked_updConn (keepsL_cDec i j) hd h
+  | drainTick c' =>
+    simp only [step] at h
+    split at h <;> try contradiction
+    split at h <;> try contradiction
+    exact leaked_updConn (keepsL_cDrainTick i) hd h
   | drainClose c' =>
     by_cases hcc : c' = c
     · subst hcc
